@@ -44,6 +44,7 @@ type replay struct {
 
 func main() {
 	o := vh.ParseFlags()
+	chain.Supervise(o, "harness supervisor")
 	res := vh.NewResult("one evaluation = one read of the real Center compared with the oracle (and with itself across a reopen); a case = one history with close/reopen steps; non-trivial = history with at least one reopen after a merge that moved a suffrage proof into the permanent store")
 	cases := &vh.Cases{Import: "From MV Require Import C19.Model C20.Model.", Type: "case", CheckFn: "check", Shard: 20}
 	t0 := time.Now()
@@ -255,6 +256,7 @@ func pool(o *vh.Opts, res *vh.Result, r *vh.Rand) {
 						res.Fail("pool-read", "stored pool item not read back: "+s, map[string]any{"seed": o.Seed, "round": round})
 					}
 				}
+				chain.Quiesce()
 				_ = p.Close()
 				_ = st.Close()
 				st, p = open()
